@@ -120,7 +120,7 @@ namespace parmcb {
         typename boost::property_map<Graph, boost::edge_weight_t>::type weight = get(boost::edge_weight, graph);
 
         while (fgets(buffer, sizeof(buffer), fp) != NULL) {
-            buffer[strlen(buffer) - 1] = '\0'; // eat the newline
+            buffer[strcspn(buffer, "\r\n")] = '\0'; // eat the newline, if any
             if (buffer[0] == 'c' || buffer[0] == '#') {
                 continue;
             } else if (buffer[0] == 'p') {
